@@ -764,7 +764,7 @@ pub fn build_fri(s: &FriSpec) -> Result<FriProof, Fail> {
             b.extend_from_slice(&(r.len() as u16).to_le_bytes());
             b.extend_from_slice(&r);
             b.push(*partitions);
-            FriProof::read_from_bytes(&b).map_err(|e| Fail::new("harness/fri-layout", format!("a well-formed FriProof encoding was refused: {e:?}")))?
+            FriProof::read_from_bytes(&b).map_err(|e| Fail::new("FriProof/documented-layout-refused", format!("bytes written by the documented FriProof layout (u8 layers | per layer u32 len, values, u32 len, nodes | u16 len, remainder | u8 log2 partitions) were refused: {e:?}")))?
         },
     })
 }
